@@ -25,6 +25,11 @@ type C15Case struct {
 	Data            gen.Recipe `json:"data"`
 	BlockSize       uint       `json:"block_size"`
 	LawsOnly        bool       `json:"laws_only,omitempty"`
+	// Compose: the chain applied as ONE sequence (as the compressor builds it from the header's type word) must
+	// give the same bytes and the same applied/declined decisions as its stages applied one after the other, each
+	// built alone from its own type (only the data-type hint is handed on): otherwise a type in the header does
+	// not denote the variant that really coded that stage
+	Compose bool `json:"compose,omitempty"`
 }
 
 func respell(s string, mode int, mask uint64) string {
@@ -99,9 +104,114 @@ func c15Laws(tr, en string) string {
 type c15Out struct {
 	msg        string
 	nontrivial bool
+	known      string
+}
+
+// c15Compose compares a chain with the composition of its stages.
+func c15Compose(c C15Case) (o c15Out) {
+	names := chainNames(c.Transform)
+	if len(names) == 0 || len(names) > 8 {
+		return
+	}
+	data := c.Data.Expand()
+	n := len(data)
+	if n == 0 {
+		return
+	}
+	en := strings.ToUpper(c.Entropy)
+	bs := uint((max(n, 1024) + 15) &^ 15)
+	mkctx := func(tr string) map[string]any {
+		return map[string]any{"transform": tr, "entropy": en, "blockSize": bs, "size": uint(n), "bsVersion": uint(6), "jobs": uint(1)}
+	}
+	chain := strings.Join(names, "+")
+	var chainOut []byte
+	var chainFlags byte
+	var required int
+	err := guard(func() error {
+		ty, e := transform.GetType(chain)
+		if e != nil {
+			return e
+		}
+		ctx := mkctx(chain)
+		seq, e := transform.New(&ctx, ty)
+		if e != nil {
+			return e
+		}
+		required = seq.MaxEncodedLen(n)
+		dst := make([]byte, required)
+		_, w, e := seq.Forward(append([]byte(nil), data...), dst)
+		if e != nil {
+			return e
+		}
+		chainOut, chainFlags = dst[:w], seq.SkipFlags()
+		return nil
+	})
+	if err != nil {
+		o.msg = "applying the chain " + chain + " failed: " + err.Error()
+		return
+	}
+	x := append([]byte(nil), data...)
+	var flags byte = 0xFF
+	var hint any
+	for i, nm := range names {
+		nm := nm
+		err := guard(func() error {
+			ty, e := transform.GetType(nm)
+			if e != nil {
+				return e
+			}
+			ctx := mkctx(nm)
+			if hint != nil {
+				ctx["dataType"] = hint
+			}
+			seq, e := transform.New(&ctx, ty)
+			if e != nil {
+				return e
+			}
+			dst := make([]byte, max(required, seq.MaxEncodedLen(len(x))))
+			_, w, e := seq.Forward(x, dst)
+			if e != nil {
+				return e
+			}
+			if seq.SkipFlags()&0x80 == 0 {
+				x = dst[:w]
+				flags &^= 0x80 >> uint(i)
+			}
+			if v, ok := ctx["dataType"]; ok {
+				hint = v
+			}
+			return nil
+		})
+		if err != nil {
+			o.msg = fmt.Sprintf("stage %d (%s) applied alone failed: %v", i+1, nm, err)
+			return
+		}
+	}
+	mask := byte(0xFF) << uint(8-len(names))
+	o.nontrivial = len(names) >= 2 && chainFlags&mask != mask
+	if chainFlags&mask != flags&mask || !bytes.Equal(chainOut, x) {
+		what := fmt.Sprintf("chain %s (entropy %s) on %s: the sequence built from the chain's type word gives skip flags %08b and %d bytes, its stages built one by one from their own types give %08b and %d bytes (first difference at %d): some type in the header does not denote the variant that coded its stage",
+			chain, en, c.Data.String(), chainFlags&mask, len(chainOut), flags&mask, len(x), firstDiff(chainOut, x))
+		o.msg = what
+		// known, format-frozen: the ROLZ variant is chosen by looking for "ROLZX" in the name of the WHOLE chain
+		hasR, hasRX := false, false
+		for _, nm := range names {
+			hasR = hasR || nm == "ROLZ"
+			hasRX = hasRX || nm == "ROLZX"
+		}
+		if hasR && hasRX {
+			o.known = "KF-32"
+		}
+	}
+	return
 }
 
 func runC15(r *vrt.Run, c C15Case) (o c15Out) {
+	if c.Compose {
+		r.Inflight("names", c)
+		defer r.InflightDone()
+		return c15Compose(c)
+	}
 	if msg := c15Laws(c.Transform, c.Entropy); msg != "" {
 		o.msg = msg
 		return
@@ -164,6 +274,9 @@ func c15Eval(r *vrt.Run, c C15Case) c15Out {
 	if c.LawsOnly {
 		mode = "laws"
 	}
+	if c.Compose {
+		mode = "compose"
+	}
 	labels := []string{"mode:" + mode, "entropy:" + strings.ToUpper(c.Entropy)}
 	for _, n := range chainNames(c.Transform) {
 		labels = append(labels, "chain-has:"+n)
@@ -208,6 +321,10 @@ func TestC15(t *testing.T) {
 			t.Fatalf("bad case in %s: %v", p, err)
 		}
 		if o := c15Eval(r, c); o.msg != "" {
+			if o.known != "" && r.KnownOpen(o.known) {
+				r.KnownLine(o.known + " " + firstLine(o.msg))
+				continue
+			}
 			r.RecordFailure("names", c, p, o.msg)
 			t.Fatalf("replay %s: %s", p, o.msg)
 		}
@@ -304,6 +421,53 @@ func TestC15(t *testing.T) {
 		}
 		r.SetExhaustive("all chains of length 2 x 2 spellings through Writer/Reader", true)
 	}
+	// (e) every ordered pair of transforms: the chain must equal the composition of its stages (two data sets, a fast
+	// and a slow entropy name, which select TEXT/RLT variants); thorough adds rapid-drawn chains of 3..5 stages
+	idx = 0
+	for _, a := range gen.TransformNames[1:] {
+		for _, b := range gen.TransformNames[1:] {
+			for k := 0; k < 2; k++ {
+				idx++
+				if !r.Mine(idx) || r.Failed() {
+					continue
+				}
+				chain := a + "+" + b
+				c := C15Case{Transform: chain, Entropy: []string{"NONE", "FPAQ"}[(idx/2)%2], Compose: true, Data: c15Data(chain)}
+				if k == 1 {
+					c.Data = c15Data(b + "+" + a)
+				}
+				r.Label("directed:pair-composition")
+				if o := c15Eval(r, c); o.msg != "" {
+					if o.known != "" && r.KnownOpen(o.known) {
+						r.Excluded(o.known)
+						continue
+					}
+					failNow(c, o.msg)
+				}
+			}
+		}
+	}
+	r.SetExhaustive("all ordered pairs of transforms: chain == composition of its stages", true)
+	r.Rapid(t, "chain-composition", 300, 20000, func(t *rapid.T) {
+		n := rapid.IntRange(2, 5).Draw(t, "n")
+		parts := make([]string, n)
+		for i := range parts {
+			parts[i] = rapid.SampledFrom(gen.TransformNames[1:]).Draw(t, "stage")
+		}
+		chain := strings.Join(parts, "+")
+		c := C15Case{Transform: chain, Entropy: gen.DrawEntropy(t, true, "entropy"), Compose: true}
+		c.Data = gen.DrawRecipe(t, 40000, "data")
+		if rapid.Bool().Draw(t, "affine") {
+			c.Data = c15Data(parts[rapid.IntRange(0, n-1).Draw(t, "affstage")])
+		}
+		if o := c15Eval(r, c); o.msg != "" {
+			if o.known != "" && r.KnownOpen(o.known) {
+				r.Excluded(o.known)
+				return
+			}
+			r.Violation(t, "names", c, "%s", o.msg)
+		}
+	})
 	// (d) rapid: chains up to 8 with NONE fillers and random case masks
 	r.Rapid(t, "random-chains", 500, 12000, func(t *rapid.T) {
 		chain := gen.DrawChain(t, 8, "chain")
